@@ -35,6 +35,7 @@ RULE = ('random adiabatic cores on 7 positions with 2-7 assemblies of 1-2 '
         'non-trivial when >= 2 assemblies share a type and the coolant rise '
         'is > 5 K; distinct by (types, count, tdep)')
 RULE += (' Later rounds added: cores in user units with several positions on one Assignment line; kind gapcore (gap model on, twin model with all foreign gap cells heated by 75 K).')
+RULE += (' Final refresh: unpowered assemblies; in low-flow-approximation cores the cut-off is steered just above the requirement of a wall-limited assembly that is not last, every assembly is re-run alone, and S2 compares the step requirement and wall treatment of each assembly in company and alone.')
 DECIDING = ['N1_other_assembly_state_untouched', 'S1_standalone_same_fields']
 CASE_TIMEOUT = {'quick': 300, 'thorough': 900}
 BUDGET = {'quick': 800, 'thorough': 3300}
@@ -47,7 +48,7 @@ _SKIP_TYPES = (logging.Logger, types.ModuleType, types.FunctionType,
 
 
 def cases(tier, seed):
-    n = 36 if tier == 'quick' else 1000
+    n = 72 if tier == 'quick' else 1000
     out = [{'name': 'core-%d' % i, 'seed': [seed, 61, i]}
            for i in range(n)]
     n = 10 if tier == 'quick' else 200
@@ -323,6 +324,52 @@ def run_gapcore(case):
     return res
 
 
+def steer_cutoff(P, feats, res):
+    """Workload steering for the low-flow approximation: a first set-up
+    WITHOUT the approximation tells which assemblies are limited by their
+    wall cells; the cut-off is then placed just above the requirement of the
+    first such assembly that is not the last one in the order, so that the
+    approximation is switched on for that assembly and (if the requirements
+    allow) for none of those set up after it."""
+    Q = copy.deepcopy(P)
+    Q['setup']['conv_approx'] = False
+    Q['setup'].pop('conv_approx_dz_cutoff', None)
+    got = {}
+
+    class _Enough(Exception):
+        pass
+
+    def grab(args, kwargs):
+        r = args[0]
+        got['dz'] = [float(x) for x in r.min_dz['dz']]
+        got['wall'] = [(not a.has_rodded) or str(s)[0] in '2367'
+                       for a, s in zip(r.assemblies, r.min_dz['sc'])]
+        raise _Enough()
+
+    with drive.scratch() as d, Hooks() as hk:
+        hk.wrap(dassh.reactor.Reactor, '_setup_zpts', pre=grab)
+        try:
+            drive.build(in_units(Q, feats), d)
+        except _Enough:
+            pass
+    if 'dz' not in got:
+        res.count('steer_requirements_not_observed')
+        return
+    dz, wall = got['dz'], got['wall']
+    cand = [i for i in range(len(dz) - 1) if wall[i]]
+    if not cand:
+        res.count('steer_no_wall_limited_assembly_before_the_last')
+        return
+    # prefer an assembly followed by at least one with a larger requirement
+    good = [i for i in cand if any(dz[j] > dz[i] * 1.02
+                                   for j in range(i + 1, len(dz)))]
+    i = (good or cand)[0]
+    P['setup']['conv_approx_dz_cutoff'] = dz[i] * 1.01
+    feats['steered_cutoff'] = True
+    res.count('steer_cutoff_placed_above_assembly_%s'
+              % ('first' if i == 0 else 'later'))
+
+
 def run_case(case):
     if case.get('kind') == 'gapcore':
         return run_gapcore(case)
@@ -330,6 +377,8 @@ def run_case(case):
     P, feats = build_problem(case)
     key = {'tdep': feats['tdep']}
     try:
+        if feats.get('conv_approx') and case['seed'][-1] % 4 != 3:
+            steer_cutoff(P, feats, res)
         trace = {}
         state = {'step': 0, 'r': None, 'pts': set()}
 
@@ -383,19 +432,26 @@ def run_case(case):
             hk.detach()
             req = float(r.req_dz)
             ids = [a.id for a in r.assemblies]
+            own_req = {a.id: (float(r.min_dz['dz'][i]),
+                              [bool(g._conv_approx) for g in a.region])
+                       for i, a in enumerate(r.assemblies)}
             names = {a.id: a.name for a in r.assemblies}
             rise = max(a.avg_coolant_temp for a in r.assemblies) - P['inlet']
             zcore = list(r.z)
         # ---- stand-alone reruns ----------------------------------------------
         rng = np.random.default_rng(case['seed'] + [1])
-        pick = list(rng.permutation(ids))[:3]
+        # the low-flow approximation is decided assembly by assembly: there
+        # every assembly is re-run alone (the decision for one must not
+        # depend on the assemblies set up before it)
+        pick = list(rng.permutation(ids))[:6 if feats.get('conv_approx')
+                                          else 3]
         zero_ids = [gen.pos_index0(q['ring'], q['pos'])
                     for q in P['positions']
                     if P['power']['asm'][str(gen.pos_index0(
                         q['ring'], q['pos']))]['total'] == 0.0]
         for z_ in zero_ids[:2]:
             if z_ in ids and z_ not in pick:
-                pick = [z_] + pick[:2]
+                pick = pick + [z_]
         for k0 in pick:
             Q = standalone_problem(P, int(k0))
             Q['setup'] = dict(Q['setup'])
@@ -416,6 +472,20 @@ def run_case(case):
             with drive.scratch() as d, Hooks() as hk:
                 inp2, r2 = drive.build(in_units(Q, feats), d,
                                        max_steps=MAX_STEPS)
+                # the step an assembly asks for and the wall treatment it
+                # is computed with are decided from its own description
+                alone = (float(r2.min_dz['dz'][0]),
+                         [bool(g._conv_approx)
+                          for g in r2.assemblies[0].region])
+                incore = own_req[int(k0)]
+                res.check('S2_own_requirement_and_wall_treatment_same_alone',
+                          incore[1] == alone[1] and abs(
+                              incore[0] - alone[0]) <= 1e-12 * alone[0],
+                          'assembly %d in company asks for dz=%.6e with wall '
+                          'approximation %r, alone for dz=%.6e with %r'
+                          % (k0, incore[0], incore[1], alone[0], alone[1]),
+                          dict(key, flags_differ=bool(incore[1] != alone[1])),
+                          {'asm': int(k0), 'incore': incore, 'alone': alone})
                 same = (len(r2.z) == len(zcore) and
                         np.allclose(r2.z, zcore, rtol=0, atol=1e-12))
                 if not same:
